@@ -32,6 +32,9 @@ type tcase struct {
 	// Neighbour: a second series of the same name with another tag set (one value 7 at rate 0.25) shares the
 	// batches: 1 = it arrives first, 2 = it arrives last. Its own statistics are checked as well.
 	Neighbour int
+	// Prior: the series already went through an earlier interval with other values (100 and -50 at rate 0.5),
+	// flushed and reset, before the values under test arrive
+	Prior bool `json:",omitempty"`
 }
 
 var ratePats = [][]float64{{1}, {0.5}, {0.5, 0.25}, {0.4}} // 1/0.4 = 2.5: sums of 1/rate that end in .5
@@ -79,6 +82,16 @@ func run2(c tcase) (t gostatsd.Timer, found bool, sib gostatsd.Timer, sibFound b
 		tags = gostatsd.Tags{"gsd_histogram:" + c.HistTag}
 	}
 	rp := ratePats[c.RatePat]
+	if c.Prior {
+		pm := gostatsd.NewMetricMap(false)
+		for _, v := range []float64{100, -50} {
+			pm.Receive(&gostatsd.Metric{Name: "t", Type: gostatsd.TIMER, Value: v, Rate: 0.5, Tags: append(gostatsd.Tags{}, tags...), Timestamp: 5})
+		}
+		ag.ReceiveMap(pm)
+		ag.Flush(c.Interval)
+		ag.Process(func(*gostatsd.MetricMap) {})
+		ag.Reset()
+	}
 	mm := gostatsd.NewMetricMap(false)
 	neighbour := func() {
 		mm.Receive(&gostatsd.Metric{Name: "t", Type: gostatsd.TIMER, Value: 7, Rate: 0.25, Tags: gostatsd.Tags{"sib:1"}, Timestamp: 5})
@@ -203,7 +216,7 @@ func check(c tcase) {
 			bad("pct-unexpected", fmt.Sprintf("unexpected percentile sub-metric %s=%v (want %v)", k, got[k], w.Pct))
 		}
 	}
-	distinct[fmt.Sprintf("%v%v%d/%d", sortedCopy(c.Values), c.Pcts, c.Mask, c.Neighbour)] = struct{}{}
+	distinct[fmt.Sprintf("%v%v%d/%d%v", sortedCopy(c.Values), c.Pcts, c.Mask, c.Neighbour, c.Prior)] = struct{}{}
 }
 
 func ii2(nb int) int { return nb % 2 * 2 } // intervals[2] / intervals[0]
@@ -260,6 +273,17 @@ func main() {
 							}
 						}
 					}
+				}
+			}
+			// the same series in a second interval: only this interval's values count
+			if len(cur) > 0 {
+				for rpi := range ratePats {
+					for _, pl := range [][]float64{nil, {90}, {-50, 50}} {
+						check(tcase{Values: cur, RatePat: rpi, Grouping: 0, Pcts: pl, Interval: time.Second, Mask: 0, Prior: true})
+					}
+				}
+				for _, lim := range []uint32{1, math.MaxUint32} {
+					check(tcase{Values: cur, Hist: true, HistTag: "-10_0_2.5", HistLim: lim, Interval: time.Second, Prior: true})
 				}
 			}
 			// two series of one name sharing the batches (either arrival order)
